@@ -34,7 +34,7 @@ def plugin_step(name, tag_src, **kw):
 SUB_INPUT = InputSchema({"tag": {"type": "string"}}, root="Item")
 
 
-def sub_program(name="sub.yaml", nsteps=1, with_error_output=False):
+def sub_program(name="sub.yaml", nsteps=1, with_error_output=False, other_output=None):
     steps = [plugin_step("w0", Expr(In("tag")), src=name.replace(".yaml", "") + "_w0")]
     for i in range(1, nsteps):
         steps.append(plugin_step("w%d" % i, tagref("w%d" % (i - 1)), src=name.replace(".yaml", "") + "_w%d" % i))
@@ -42,6 +42,9 @@ def sub_program(name="sub.yaml", nsteps=1, with_error_output=False):
     outs = {"success": {"t": tagref(last)}}
     if with_error_output:
         outs["error"] = {"why": Expr(Ref(last, "outputs", "error", "reason"))}
+    if other_output:
+        # a further declared output with its own shape, produced when the last step ends in `alt`
+        outs[other_output] = {"reason": Expr(Ref(last, "outputs", "alt", "tag")), "n": 1}
     return Program(steps, outs, SUB_INPUT, name=name)
 
 
@@ -147,6 +150,32 @@ def shape_random_dag(rng, n):
     return steps, {"success": {"r_" + s: tagref(s) for s in sinks}}
 
 
+def concat(*nodes):
+    """String concatenation of several reference nodes: one expression with several dependencies."""
+    e = nodes[0]
+    for n in nodes[1:]:
+        e = Bin("+", e, n)
+    return e
+
+
+def shape_multiref(rng):
+    """Expressions with several references, the first of which is already connected to the consuming node through an
+    earlier field or list item (so that 'already connected' paths of dependency building are exercised)."""
+    a = plugin_step("a", Expr(In("tag")))
+    b = plugin_step("b", Expr(In("tag")))
+    ta, tb = Ref("a", "outputs", "success", "tag"), Ref("b", "outputs", "success", "tag")
+    variant = rng.choice(["list", "map", "wait_for", "output-only"])
+    c = plugin_step("c", Expr(ta), extra_input={"l": [Expr(ta), Expr(concat(ta, tb))]})
+    if variant == "map":
+        c = plugin_step("c", Expr(ta), extra_input={"a": {"first": Expr(ta), "both": Expr(concat(ta, tb, ta))}})
+    elif variant == "wait_for":
+        c = plugin_step("c", Expr(In("tag")), wait_for=[Expr(ta), Expr(concat(ta, tb))])
+    elif variant == "output-only":
+        c = plugin_step("c", Expr(concat(ta, tb)))
+    outs = {"success": {"c": tagref("c"), "x": Expr(ta), "y": Expr(concat(ta, tb)), "z": [Expr(tb), Expr(concat(tb, ta))]}}
+    return [a, b, c], outs
+
+
 SHAPES = {
     "chain": lambda rng: shape_chain(rng, rng.randrange(1, 6)),
     "diamond": shape_diamond,
@@ -159,6 +188,7 @@ SHAPES = {
     "foreach": lambda rng: shape_foreach(rng, rng.choice([1, 2]), rng.choice([None, 1, 2, 5])),
     "foreach_after": shape_foreach_after,
     "random_dag": lambda rng: shape_random_dag(rng, rng.randrange(2, 9)),
+    "multiref": shape_multiref,
 }
 
 OUTCOMES = ["success", "error", "alt", "crash", "drop", "deployfail", "hang"]
